@@ -23,7 +23,7 @@ theorem findChild_tree (r : RawState) (strict : Bool) (name : Name) (t : Tree) :
     simp [findChild, lnk, Tree.find?]
   | node l e k rr ihl _ ihr =>
     intro ok fuel hf
-    obtain ⟨okl, _, okr, _, hne, ⟨d, hd, hname, _, _, hleft, hright, _⟩, _⟩ := ok
+    obtain ⟨okl, _, okr, _, hne, ⟨d, hd, hname, _, _, hleft, hright, _⟩, _, _⟩ := ok
     simp only [Tree.size] at hf
     obtain ⟨f, rfl⟩ : ∃ f, fuel = f + 1 := ⟨fuel - 1, by omega⟩
     have hne' : ¬ (lnk (Tree.node l e k rr) = NOSTREAM) := hne
@@ -48,7 +48,7 @@ theorem find?_dfsOk (T : Array DirEntry) (strict : Bool) (name : Name) (t : Tree
   | leaf => intro _ e k h; simp [Tree.find?] at h
   | node l e0 k0 rr ihl _ ihr =>
     intro ok e k h
-    obtain ⟨okl, okk, okr, _, _, ⟨d, hd, _, _, _, _, _, hchild⟩, _⟩ := ok
+    obtain ⟨okl, okk, okr, _, _, ⟨d, hd, _, _, _, _, _, hchild⟩, _, _⟩ := ok
     simp only [Tree.find?] at h
     simp only [Tree.size]
     cases hc : cmp name e0.name with
